@@ -21,7 +21,7 @@ from checks import common
 PROPERTY = "C09"
 LEVEL = "exploration"
 MODES = ["O0"]
-TIERS = {"quick": {"runs": 1200, "wall": 55}, "thorough": {"runs": 25000, "wall": 1500}}
+TIERS = {"quick": {"runs": 1600, "wall": 55}, "thorough": {"runs": 25000, "wall": 1500}}
 RULE = ("plan = base directory (1..7 well-formed PELs) + 1..4 junk items (torn/lost/flip/garbage/foreign copies "
         "of the plan's own PELs, biased into headers, length fields and the callout area) + 0..2 subdirectories "
         "+ option set; every directory mode (-l -a -n --plid --src --src-exclude -j, with -x/-r variants) runs "
